@@ -531,6 +531,31 @@ impl MirrorObserver {
                 ),
             ));
         }
+        // ... and events are matched to the group by the id currently in force: looking that id
+        // up must find this group
+        let nid = hex::decode(&lvl.record.nostr_group_id).ok().and_then(|v| <[u8; 32]>::try_from(v).ok());
+        if let Some(nid) = nid {
+            let found = crate::on_mdk!(w.clients[who].mdk(), m => {
+                use mdk_storage_traits::groups::GroupStorage;
+                use openmls_traits::OpenMlsProvider;
+                m.provider.storage().find_group_by_nostr_group_id(&nid).map(|g| g.map(|g| g.mls_group_id))
+            });
+            match found {
+                Ok(Some(g)) if g == w.gid => {}
+                other => {
+                    return Err(Failure::new(
+                        "group-not-reachable-under-its-own-nostr-group-id",
+                        format!(
+                            "after {what} at c{who} ({:?}, step {}): the record carries Nostr group id {}, looking it up finds {}",
+                            w.clients[who].kind,
+                            w.step,
+                            crate::fingerprint::sh(&lvl.record.nostr_group_id, 8),
+                            match other { Ok(Some(_)) => "another group".to_string(), Ok(None) => "nothing".to_string(), Err(e) => format!("an error ({e})") }
+                        ),
+                    ));
+                }
+            }
+        }
         Ok(())
     }
 }
